@@ -307,8 +307,8 @@ func (g *sgen) message(scope, name string, depth int) *descriptorpb.DescriptorPr
 
 	// ---- field plan: segments of plain fields and oneofs
 	nf := g.n(0, 10, "fields")
-	if g.p(5, "big-message") {
-		nf = g.n(101, 140, "fields")
+	if g.p(3, "big-message") {
+		nf = g.n(101, 125, "fields")
 	}
 	usedNames := map[string]bool{}
 	usedNums := map[int64]bool{}
